@@ -29,8 +29,10 @@ def cases(tier):
     end = 6 if q else 9
     names = ["S", "L", "A", "F1", "Fh", "P1", "U"] if q else ["S", "L", "N", "V", "T", "A", "M", "F1", "Fh", "P1", "P2", "U"]
     for ch in F.chains(names, 2):
+        # chains whose delay-to-pull adapters remember several requests have much larger state spaces: shorter horizon
+        e2 = end if sum(t[1] for t in ch if t[0] == "P") < 2 else min(end, 7)
         for order in (("A", "B"), ("B", "A")):
-            cs.append(F.pair(ch, end=end, order=order))
+            cs.append(F.pair(ch, end=e2, order=order))
     # delay-to-pull with several steps, with and without an initial pull of the consumer
     for ch in ([["P", 2, 0]], [["P", 3, 0.5]], [["P", 2, 0], ["F", 1]], [["S", 2], ["P", 2, 0.5]], [["P", 1, 1]], [["P", 2, 1]], [["P", 1, 2]], [["P", 1, 1], ["F", 1]]):
         for pi in (True, False):
